@@ -268,6 +268,10 @@ def replay(ctx, case):
     if case.get("kind") == "pnlive":
         ctx.case(None, True)
         return pn_live_case(ctx, dict(case, rounds=[dict(r, packets=[tuple(x) for x in r["packets"]], swaps=[tuple(x) for x in r["swaps"]]) for r in case["rounds"]]))
+    if case.get("kind") == "builder":
+        from props import C17
+
+        return C17.replay(ctx, case)
     if "script" in case and "fates" in case:
         from vlib import simchecks
 
@@ -553,6 +557,7 @@ def plan(tier, seed):
         t.append(("pn-live-%d" % sh, {"fn": "pnlive", "examples": 150 if q else 6000, "shard": sh}))
     for sh in range(2):
         t.append(("emit-live-%d" % sh, {"fn": "emit", "examples": 150 if q else 6000, "shard": sh}))
+    t.append(("builder-packets", {"fn": "builder", "examples": 600 if q else 20000, "shard": 7}))
     from vlib import simchecks
 
     t += simchecks.plan_for("C02", tier, seed)
@@ -578,6 +583,11 @@ def run_task(ctx, name, fn, **kw):
         pn_live_task(ctx, kw["examples"], kw["shard"])
     elif fn == "emit":
         emit_live_task(ctx, kw["examples"], kw["shard"])
+    elif fn == "builder":
+        # packets as QuicPacketBuilder emits them (all types, coalesced, packet numbers up to 2^62, both versions): recovered by the reference
+        from props import C17
+
+        C17.builder_headers(ctx, kw["examples"], kw["shard"])
     elif fn == "sim":
         from vlib import simchecks
 
